@@ -169,7 +169,7 @@ def run(ctx):
         _run(ctx, "vec")
         _run(ctx, "arr", limit=1200)
         _run(ctx, "win", limit=2500)
-        _composed(ctx)
+        _composed(ctx, formats=("text", "netcdf"))
     else:
         _run(ctx, "vec")
         _run(ctx, "arr")
